@@ -1368,6 +1368,34 @@ impl EnergyWorld {
                 }
                 for x in s.xfers.iter() { targets.push(x.2 + self.min_lock + 1); }
                 for l in s.sl.iter().chain(s.rl.iter()) { targets.push(l.1 + self.cooldown + 1); }
+                // BOUNDARY BURST: land exactly on the unlock epoch of a held token and use that very token at once
+                // (merge / early unlock / reduce / transfer / wrap / extend / unlock with `unlock_epoch == now`: every
+                //  `>` vs `>=` on the unlock epoch is decided here; a surviving mutant showed plain random timing misses it)
+                let future: Vec<&(u64, u64, BigUint, u64)> = hold.iter().filter(|h| h.3 > now).collect();
+                if !future.is_empty() && rng.chance(1, 5) {
+                    let h = (*rng.pick(&future)).clone();
+                    let mate = hold.iter().find(|x| x.0 == h.0 && x.1 != h.1).cloned();
+                    let other_u = other(rng);
+                    let mut burst: Vec<String> = vec![];
+                    for _ in 0..rng.range(1, 2) {
+                        burst.push(match rng.below(8) {
+                            0 | 1 => match &mate {
+                                Some(m) => format!("merge {} 0 {}", h.0, show_pays(&vec![(h.1, h.2.clone()), (m.1, m.2.clone())], ",")),
+                                None => format!("merge {} 0 {}", h.0, show_pays(&vec![(h.1, &h.2 / 2u32 + &one), (h.1, one.clone())], ",")),
+                            },
+                            2 => format!("unlockEarly {} {} {}", h.0, h.1, h.2),
+                            3 => format!("reduce {} {} {} {}", h.0, h.1, h.2, listed(rng)),
+                            4 => format!("lockFunds {} {} {}", h.0, other_u, show_pays(&vec![(h.1, h.2.clone())], ",")),
+                            5 => format!("wrap {} {} {}", h.0, h.1, h.2),
+                            6 => format!("extend {} {} {} {} 0", h.0, h.1, h.2, listed(rng)),
+                            _ => format!("unlock {} {}", h.0, show_pays(&vec![(h.1, h.2.clone())], ",")),
+                        });
+                    }
+                    for b in burst.into_iter().rev() {
+                        self.pending.push(b);
+                    }
+                    return ('O', format!("advance {}", h.3));
+                }
                 let e = if !targets.is_empty() && rng.chance(1, 3) {
                     let t = *rng.pick(&targets);
                     (match rng.below(3) { 0 => t.saturating_sub(1), 1 => t, _ => t + 1 }).max(now)
